@@ -48,6 +48,14 @@ CHECKS = {
     text="Metamorphic monitor for xml5ever: one-piece default run vs every 2-chunk split, 1-char chunks, random partitions, exact_errors, and vs the run on the CR/NUL-pre-normalised source (tokens minus errors and tree); targeted matrix placing CR/CRLF/NUL/U+FEFF in every tokenizer context incl. next to and inside character references, plus random XML.",
     note="oracle = the real code on a related execution; no XML5 specification needed",
     technique="runtime monitoring: metamorphic comparison across feed schedules, options and source normalisation"),
+ "C16": dict(
+    text="History + model: every element and attribute the XML tree builder hands to the sink is compared with an independent lexical-scope resolver (declarations on the element's own tag, as the generator wrote them, over the scope of its parent in the built tree); attribute-loss rule checked exactly as stated; attribute-permuted renderings must resolve identically. Namespace-shape generator (declare/undeclare/shadow/unbound/xml/xmlns prefixes, <script/>, empty/short/omitted end tags, colliding attribute names) plus XML soup.",
+    note="nesting is read from the built tree (a wrong nesting is outside C16); same prefix declared twice on one tag is excluded as not well-formed",
+    technique="runtime monitoring: sink-call history checked against an independent scope-resolution model"),
+ "C17": dict(
+    text="Round-trip monitor: parse -> xml5ever::serialize -> parse, trees compared node by node (local names, prefixes, namespace URIs, attribute values, text, comments, PIs; doctype excluded) over namespace shapes with hostile text/attribute strings and XML soup whose names are XML names.",
+    note="trees come from parsing; names that are not XML names are out of scope; one parser quirk (PI data with leading white space) is a listed known finding",
+    technique="runtime monitoring: round-trip (serialize then re-parse) tree equality"),
  "C18": dict(
     text="GC-simulating sink: at every feed() return (1-character chunks, random schedules, script pauses) trace_handles is called and every node unreachable from the traced handles is poisoned; any later sink call receiving a poisoned handle is a violation, and the final tree must equal the run without collection. HTML documents, fragments and XML.",
     note="reachability over parent/children/template-contents edges as the property states; only meaningful when collections actually poison nodes (counted in evidence)",
